@@ -429,6 +429,16 @@ func canReachPositive(start, pred *ssa.BasicBlock) (bool, *ssa.Return) {
 					}
 				}
 			}
+			// return !(a || b): the negation of a phi
+			if u, isNot := v.(*ssa.UnOp); isNot && u.Op == token.NOT {
+				if phi, ok := u.X.(*ssa.Phi); ok && phi.Block() == n.b {
+					for k, pr := range n.b.Preds {
+						if pr == n.from {
+							v = negatedValue(phi.Edges[k])
+						}
+					}
+				}
+			}
 			if b, ok := constBool(v); ok && !b {
 				continue
 			}
@@ -584,6 +594,38 @@ func ruleC01c(c *Ctx) {
 				}
 			}
 			follow(matched, 0)
+			if !okEnf {
+				// decided per (virtual) return: a result that can be true is the match result itself, a conjunction
+				// with it, or is produced where the match is known to have succeeded
+				all, some := true, false
+				for _, vr := range virtualReturns(cal) {
+					if len(vr.Results) == 0 || !vr.Ret.Block().Dominates(vr.Ret.Block()) {
+						continue
+					}
+					if b, isC := constBool(vr.Results[0]); isC && !b {
+						continue
+					}
+					if !canReach(call, vr.Ret) {
+						continue
+					}
+					some = true
+					okRet := vr.Facts[condFact{matched, true}]
+					var derives func(v ssa.Value, depth int) bool
+					derives = func(v ssa.Value, depth int) bool {
+						if v == matched {
+							return true
+						}
+						if bo, ok := v.(*ssa.BinOp); ok && bo.Op == token.AND && depth < 3 {
+							return derives(bo.X, depth+1) || derives(bo.Y, depth+1)
+						}
+						return false
+					}
+					if !okRet && !derives(vr.Results[0], 0) {
+						all = false
+					}
+				}
+				okEnf = some && all
+			}
 			c.check(okEnf, p.fname(cal), "a failed regular-expression match is a failed token", p.ipos(i), "the false outcome of regexp.MatchString cannot produce a positive answer", "the result of regexp.MatchString does not decide the answer")
 			// any other positive answer of the helper is the tail wildcard: under `<expression> == "*"`
 			cfacts := factsAt(cal)
@@ -693,7 +735,41 @@ func templateGuards(p *Program, fn *ssa.Function, b *ssa.BasicBlock, reqTaint ma
 				}
 			}
 		case *ssa.Parameter:
-			out["flag:"+flagName(x.Name())] = true
+			// the flag is what the callers pass: the field every call site loads for it names it, whatever the
+			// parameter is called
+			name := x.Name()
+			if parent := x.Parent(); parent != nil {
+				idx := -1
+				for k, q := range parent.Params {
+					if q == x {
+						idx = k
+					}
+				}
+				field, n := "", 0
+				for _, e := range p.callGraph().In[parent] {
+					if e.Kind != EdgeStatic || e.Site == nil || idx < 0 {
+						continue
+					}
+					cc := callCommon(e.Site)
+					if cc == nil {
+						continue
+					}
+					args := callArgs(cc)
+					if idx >= len(args) {
+						continue
+					}
+					n++
+					if _, fld, ok := fieldLoad(strip(args[idx])); ok && (field == "" || field == fld.Name()) {
+						field = fld.Name()
+					} else {
+						field = "\x00"
+					}
+				}
+				if n > 0 && field != "" && field != "\x00" {
+					name = field
+				}
+			}
+			out["flag:"+flagName(name)] = true
 		case *ssa.UnOp:
 			if _, fld, ok := fieldLoad(x); ok {
 				out["flag:"+flagName(fld.Name())] = true
